@@ -178,6 +178,151 @@ func checkC15(c *Check) {
 		}
 	}
 
+	// ---- R3b: the address list judged is the translation when the prepare_email mapping has one, the normalised
+	// address itself only when it has none
+	c.Rule("R3b", "authzSender: with an entry in the prepare_email mapping the entitlement lookup judges that translation (not the untranslated address); without an entry, the normalised address", 1)
+	if r != nil {
+		info := r.Info
+		var az *ast.CallExpr
+		var azPt Pt
+		for _, pt := range r.Calls(calling("~/internal/authz.AuthorizeEmailUse")) {
+			azPt, az = pt, r.CallAt(pt, calling("~/internal/authz.AuthorizeEmailUse"))
+		}
+		msg := ""
+		if az == nil || len(az.Args) != 4 {
+			msg = "undecided: no entitlement lookup"
+		} else if lst, ok := objOf(info, az.Args[2]).(*types.Var); !ok || lst.IsField() {
+			msg = "undecided: the address list is not a local variable"
+		} else {
+			// the "found" flags of the mapping lookups: bool locals assigned from a Lookup / from len(result) > 0
+			found := map[types.Object]bool{}
+			ast.Inspect(r.FI.Decl.Body, func(n ast.Node) bool {
+				as, ok := n.(*ast.AssignStmt)
+				if !ok {
+					return true
+				}
+				for i, l := range as.Lhs {
+					o, isVar := objOf(info, l).(*types.Var)
+					if !isVar || !isBoolType(o.Type()) {
+						continue
+					}
+					if len(as.Rhs) == 1 && len(as.Lhs) == 3 && i == 1 {
+						if call, ok := ast.Unparen(as.Rhs[0]).(*ast.CallExpr); ok && methodName(call) == "Lookup" {
+							found[o] = true
+						}
+					}
+					if len(as.Rhs) == len(as.Lhs) {
+						if be, ok := ast.Unparen(as.Rhs[i]).(*ast.BinaryExpr); ok && (be.Op == token.GTR || be.Op == token.NEQ) {
+							if lc, ok := ast.Unparen(be.X).(*ast.CallExpr); ok && len(lc.Args) == 1 {
+								if id, ok := lc.Fun.(*ast.Ident); ok && id.Name == "len" {
+									found[o] = true
+								}
+							}
+						}
+					}
+				}
+				return true
+			})
+			world := func(has bool) func(b *cfgBlock, i int) bool {
+				return r.F.World(func(atom ast.Expr) (bool, bool) {
+					if o := objOf(info, atom); o != nil && found[o] {
+						return has, true
+					}
+					return false, false
+				})
+			}
+			// definitions of the list: from a mapping lookup (LookupMulti result / slice literal of the Lookup result) or
+			// the fallback (slice literal of the normalised address)
+			var normObj types.Object
+			ast.Inspect(r.FI.Decl.Body, func(n ast.Node) bool {
+				if as, ok := n.(*ast.AssignStmt); ok && len(as.Rhs) == 1 {
+					if call, ok := ast.Unparen(as.Rhs[0]).(*ast.CallExpr); ok {
+						if fv := fieldOf(info, call.Fun); fv != nil && objName(fv) == "fromNorm" {
+							normObj = objOf(info, as.Lhs[0])
+						}
+					}
+				}
+				return true
+			})
+			classify := func(has bool) (fromMap, fallback, other bool) {
+				w := world(has)
+				isDef := func(q Pt) bool { return q.Node() != nil && assignsObj(info, q.Node(), lst) }
+				for _, dp := range r.F.Points() {
+					if dp.Node() == nil || !isDef(dp) {
+						continue
+					}
+					if _, f := r.F.Reach(Query{From: []Pt{dp}, Target: func(q Pt) bool { return q == azPt }, Avoid: func(q Pt) bool { return q != azPt && isDef(q) }, AvoidEdge: w}); !f {
+						continue
+					}
+					if _, f := r.F.Reach(Query{From: r.Entry(), Inclusive: true, Target: func(q Pt) bool { return q == dp }, AvoidEdge: w}); !f {
+						continue
+					}
+					as, _ := dp.Node().(*ast.AssignStmt)
+					if as == nil {
+						if _, isSpec := dp.Node().(*ast.ValueSpec); isSpec {
+							continue // zero declaration
+						}
+						other = true
+						continue
+					}
+					for i, l := range as.Lhs {
+						if objOf(info, l) != lst {
+							continue
+						}
+						var rhs ast.Expr
+						if len(as.Rhs) == len(as.Lhs) {
+							rhs = as.Rhs[i]
+						} else if len(as.Rhs) == 1 {
+							rhs = as.Rhs[0]
+						}
+						switch {
+						case rhs == nil:
+							other = true
+						case normObj != nil && mentions(info, rhs, normObj) && func() bool { _, isLit := ast.Unparen(rhs).(*ast.CompositeLit); return isLit }():
+							fallback = true
+						default:
+							isLookup := false
+							ast.Inspect(rhs, func(x ast.Node) bool {
+								if call, ok := x.(*ast.CallExpr); ok && (methodName(call) == "LookupMulti" || methodName(call) == "Lookup") {
+									isLookup = true
+								}
+								if id, ok := x.(*ast.Ident); ok {
+									if o := objOf(info, id); o != nil && o != normObj {
+										if def, n := localDef(info, r.FI.Decl.Body, o); n >= 1 && def != nil {
+											if call, ok := ast.Unparen(def).(*ast.CallExpr); ok && methodName(call) == "Lookup" {
+												isLookup = true
+											}
+										}
+									}
+								}
+								return true
+							})
+							if isLookup {
+								fromMap = true
+							} else {
+								other = true
+							}
+						}
+					}
+				}
+				return
+			}
+			m1, f1, o1 := classify(true)
+			m2, f2, o2 := classify(false)
+			switch {
+			case len(found) == 0:
+				msg = "undecided: no 'found' flag of the prepare_email lookup"
+			case o1 || o2:
+				msg = "the address list handed to the entitlement lookup can be something other than the mapping's translation or the normalised address"
+			case !m1 || f1:
+				msg = "although the prepare_email mapping has an entry for the address, the entitlement lookup judges the untranslated address (an alias of somebody else's mailbox is authorized by its spelling)"
+			case m2 && !f2:
+				msg = "without an entry in the prepare_email mapping the entitlement lookup is not given the normalised address"
+			}
+		}
+		c.Hold("R3b", "authzSender:translation-used", r.FI.Decl.Pos(), msg == "", msg)
+	}
+
 	// ---- R7: acceptance only over a positive entitlement answer
 	c.Rule("R7", "authzSender accepts (returns a result without a reason) only on the path where the entitlement lookup answered true without an error – not from a cache, a default or an earlier verdict", 1)
 	if r != nil {
@@ -290,6 +435,48 @@ func checkC15(c *Check) {
 		c.Hold("R2", "state."+m, rm.FI.Decl.Pos(), msg == "", msg)
 	}
 
+	// ---- R2b: nothing but "no network connection" (locally generated) and "header check disabled" skips the authorization
+	c.Rule("R2b", "for a message that arrived over a connection (and, for the header stage, with the header check enabled) every accepting outcome of CheckSender / CheckBody comes after an authzSender call", 2)
+	for _, m := range []string{"CheckSender", "CheckBody"} {
+		rm := c.In(authzSenderRel, "state", m)
+		if rm == nil {
+			c.Fail("R2b", "state."+m, token.NoPos, "anchor unresolved")
+			continue
+		}
+		info := rm.Info
+		calls := rm.Calls(isAuthz)
+		w := rm.F.World(func(atom ast.Expr) (bool, bool) {
+			atom = ast.Unparen(atom)
+			if be, ok := atom.(*ast.BinaryExpr); ok && (be.Op == token.EQL || be.Op == token.NEQ) && isNilIdent(info, be.Y) {
+				if fv := fieldOf(info, be.X); fv != nil && objName(fv) == "Conn" {
+					return be.Op == token.NEQ, true // there is a connection
+				}
+			}
+			if fv := fieldOf(info, atom); fv != nil && objName(fv) == "checkHeader" {
+				return true, true
+			}
+			return false, false
+		})
+		accepting := func(pt Pt) bool {
+			k, ret := rm.F.Exit(pt)
+			if k == ExitFallOff {
+				return true
+			}
+			if ret == nil {
+				return false
+			}
+			if len(ret.Results) != 1 {
+				return true
+			}
+			if call, ok := ast.Unparen(ret.Results[0]).(*ast.CallExpr); ok && isAuthz(info, call) {
+				return false // the verdict of authzSender itself
+			}
+			return !c15Refusal(c.P, rm.FI, info, ret.Results[0], 0)
+		}
+		path, f := rm.F.Reach(Query{From: rm.Entry(), Inclusive: true, Target: accepting, Avoid: isPt(calls), AvoidEdge: w})
+		c.Hold("R2b", "state."+m, rm.FI.Decl.Pos(), !f && len(calls) > 0, m+" can accept a message received over a connection without asking authzSender (the check is skipped for everybody): "+rm.F.Describe(path))
+	}
+
 	// ---- R4
 	c.Rule("R4", "a security decision on the message author reads every From field: a function deciding on a repeatable field enumerates it (FieldsByKey) or refuses duplicates; Header.Get returns only the first value", 1)
 	c.Rule("R4b", "CheckBody: a From field with several addresses is refused, or every address is authorized", 1)
@@ -311,6 +498,75 @@ func checkC15(c *Check) {
 			}
 			return true
 		})
+		// when the function enumerates the field only to count it, more than one field must end in a refusal: the counter
+		// incremented in the enumeration loop is evaluated as 2
+		if enumerates && usesGetFrom {
+			var counter types.Object
+			ast.Inspect(rb.FI.Decl.Body, func(n ast.Node) bool {
+				fs, ok := n.(*ast.ForStmt)
+				if !ok {
+					return true
+				}
+				enum := false
+				ast.Inspect(fs, func(x ast.Node) bool {
+					if call, ok := x.(*ast.CallExpr); ok && (methodName(call) == "FieldsByKey" || methodName(call) == "Values") && len(call.Args) == 1 {
+						if sv, ok := constString(info, call.Args[0]); ok && strings.EqualFold(sv, "From") {
+							enum = true
+						}
+					}
+					// the iterator may have been obtained before the loop: `f := hdr.FieldsByKey("From"); for f.Next() {`
+					if id, ok := x.(*ast.Ident); ok && fs.Cond != nil && posIn(fs.Cond, id.Pos()) {
+						if o, ok := info.Uses[id].(*types.Var); ok && !o.IsField() {
+							if def, n := localDef(info, rb.FI.Decl.Body, o); n == 1 && def != nil {
+								if dc, ok := ast.Unparen(def).(*ast.CallExpr); ok && (methodName(dc) == "FieldsByKey" || methodName(dc) == "Values") && len(dc.Args) == 1 {
+									if sv, ok := constString(info, dc.Args[0]); ok && strings.EqualFold(sv, "From") {
+										enum = true
+									}
+								}
+							}
+						}
+					}
+					return true
+				})
+				if enum {
+					ast.Inspect(fs.Body, func(x ast.Node) bool {
+						if id, ok := x.(*ast.IncDecStmt); ok && id.Tok == token.INC {
+							counter = objOf(info, id.X)
+						}
+						return true
+					})
+				}
+				return true
+			})
+			if counter != nil {
+				w2 := rb.F.ValueWorld(func(e ast.Expr) (constantValue, bool) {
+					if id, ok := ast.Unparen(e).(*ast.Ident); ok && objOf(info, id) == counter {
+						return makeInt(2), true
+					}
+					return nil, false
+				})
+				// from the end of the counting loop every exit is a refusal
+				var done []Pt
+				for _, b := range rb.F.G.Blocks {
+					if fs, ok := b.Stmt.(*ast.ForStmt); ok && b.Kind == kindForDone && mentions(info, fs.Body, counter) {
+						done = append(done, Pt{b, 0})
+					}
+				}
+				notRefusal := func(pt Pt) bool {
+					_, ret := rb.F.Exit(pt)
+					if !rb.F.IsExitPt(pt) {
+						return false
+					}
+					return ret == nil || len(ret.Results) != 1 || !c15Refusal(c.P, rb.FI, info, ret.Results[0], 0)
+				}
+				if path, f := rb.F.Reach(Query{From: done, Inclusive: true, Target: notRefusal, AvoidEdge: w2}); f || len(done) == 0 {
+					enumerates = false
+					_ = path
+				}
+			} else {
+				enumerates = false
+			}
+		}
 		c.Hold("R4", "CheckBody:repeated-From", rb.FI.Decl.Pos(), enumerates || !usesGetFrom, "the header check authorizes only the first From field (Header.Get): a message with a second From field naming a foreign address passes, and clients display that one; the DMARC code (ExtractFromDomain) enumerates FieldsByKey for the same reason")
 		// R4b: in the world len(list) > 1 no authzSender call outside a loop over the list is reachable
 		var listObj types.Object
